@@ -11,6 +11,7 @@ _SERIAL = [0]
 
 SM = ["sm"]          # name of the scenario manager the factory registers (a harness may switch it, e.g. to "2024")
 RUNSPEC = [1.0, 10.0, 1.0]
+TWO = [False]        # True: the factory registers a second manager "sm2" (another model) and sessions span both managers
 
 def make_bptk():
     m = Model(starttime=RUNSPEC[0], stoptime=RUNSPEC[1], dt=RUNSPEC[2], name="m")
@@ -20,6 +21,12 @@ def make_bptk():
     b.register_model(m)
     b.register_scenario_manager({SM[0]: {"model": m}})
     b.register_scenarios(scenario_manager=SM[0], scenarios={"base": {"constants": {"c": 1.0}}})
+    if TWO[0]:
+        m2 = Model(starttime=RUNSPEC[0], stoptime=RUNSPEC[1], dt=RUNSPEC[2], name="m2")
+        s2 = m2.stock("s"); f2 = m2.flow("f"); c2 = m2.constant("c")
+        s2.initial_value = 5.0; c2.equation = 3.0; f2.equation = c2 * 2.0; s2.equation = f2
+        b.register_scenario_manager({"sm2": {"model": m2}})
+        b.register_scenarios(scenario_manager="sm2", scenarios={"base": {"constants": {"c": 3.0}}})
     orig = b.destroy
     _SERIAL[0] += 1
     b._verif_serial = _SERIAL[0]
@@ -52,7 +59,7 @@ def start(client, headers=None, timeout=None):
     return json.loads(r.data)["instance_uuid"]
 
 def begin(client, u, headers=None):
-    return client.post("/%s/begin-session" % u, json=dict(BEGIN, scenario_managers=[SM[0]]), headers=headers or {})
+    return client.post("/%s/begin-session" % u, json=dict(BEGIN, scenario_managers=[SM[0]] + (["sm2"] if TWO[0] else [])), headers=headers or {})
 
 def digest(app):
     """server-side state that a refused request must not change"""
@@ -62,6 +69,47 @@ def digest(app):
         d[k] = None if ss is None else (ss.get("step"), ss.get("lock"), len(ss.get("results_log", {}) or {}), repr(ss.get("settings_log"))[:200])
     sc = app._bptk.get_scenario(SM[0], "base")
     return (d, dict(sc.constants), len(DESTROYED))
+
+import os, sys, time
+
+def isolated(fn, *args, **kw):
+    """run fn in a forked child and return its (pickled) result: process-wide state a run leaves behind (class
+    attributes, module globals) must not leak from the interleaved run into the solo runs it is compared with"""
+    import pickle, select, signal
+    r, w = os.pipe()
+    sys.stdout.flush()
+    pid = os.fork()
+    if pid == 0:
+        try:
+            os.close(r)
+            try:
+                res = ("ok", fn(*args, **kw))
+            except BaseException as e:
+                res = ("err", "%s: %s" % (type(e).__name__, e))
+            with os.fdopen(w, "wb") as f:
+                pickle.dump(res, f)
+        finally:
+            os._exit(0)
+    os.close(w)
+    data = b""
+    deadline = time.time() + 300
+    with os.fdopen(r, "rb") as f:
+        while True:
+            left = deadline - time.time()
+            if left <= 0 or not select.select([f], [], [], left)[0]:
+                os.kill(pid, signal.SIGKILL)
+                os.waitpid(pid, 0)
+                raise RuntimeError("isolated run did not finish in 300 s")
+            chunk = os.read(f.fileno(), 1 << 16)
+            if not chunk:
+                break
+            data += chunk
+    os.waitpid(pid, 0)
+    kind, val = pickle.loads(data)
+    if kind == "err":
+        raise RuntimeError(val)
+    return val
+
 
 import os, sys, time, re, tempfile, shutil
 
@@ -151,6 +199,8 @@ def execute(cfg, timeouts, schedule, only=None):
             if i is None:
                 # environment: the clock moves and somebody looks at the metrics (sweeps everything that has expired)
                 FakeClock.advance(op[1])
+                if op[0] == "tick":
+                    continue          # the clock moves, nobody looks
                 client.get("/full-metrics")
                 continue
             if i not in ids:
@@ -161,44 +211,6 @@ def execute(cfg, timeouts, schedule, only=None):
     finally:
         if d:
             shutil.rmtree(d, ignore_errors=True)
-
-def isolated(fn, *args, **kw):
-    """run fn in a forked child and return its (pickled) result: process-wide state a run leaves behind (class
-    attributes, module globals) must not leak from the interleaved run into the solo runs it is compared with"""
-    import pickle, select, signal
-    r, w = os.pipe()
-    sys.stdout.flush()
-    pid = os.fork()
-    if pid == 0:
-        try:
-            os.close(r)
-            try:
-                res = ("ok", fn(*args, **kw))
-            except BaseException as e:
-                res = ("err", "%s: %s" % (type(e).__name__, e))
-            with os.fdopen(w, "wb") as f:
-                pickle.dump(res, f)
-        finally:
-            os._exit(0)
-    os.close(w)
-    data = b""
-    deadline = time.time() + 300
-    with os.fdopen(r, "rb") as f:
-        while True:
-            left = deadline - time.time()
-            if left <= 0 or not select.select([f], [], [], left)[0]:
-                os.kill(pid, signal.SIGKILL)
-                os.waitpid(pid, 0)
-                raise RuntimeError("isolated run did not finish in 300 s")
-            chunk = os.read(f.fileno(), 1 << 16)
-            if not chunk:
-                break
-            data += chunk
-    os.waitpid(pid, 0)
-    kind, val = pickle.loads(data)
-    if kind == "err":
-        raise RuntimeError(val)
-    return val
 
 def run(case):
     cfg, timeouts, schedule = case
@@ -213,7 +225,7 @@ def run(case):
             return "instance %d: %d responses interleaved, %d alone" % (i, len(joint[i]), len(solo))
     return None
 
-case = ({'adapter': False, 'compress': False, 'batch': False}, [{'minutes': 5}, {'minutes': 5}], [(1, ('begin', ('plain',), ('s', 'f', 'g'), None)), (0, ('begin', ('plain',), ('s', 'f', 'g'), ('plain', 'c', 9.0))), (1, ('step', None)), (0, ('step', None)), (1, ('step', None)), (0, ('step', None)), (1, ('step', None)), (0, ('step', None)), (1, ('results', False)), (0, ('results', False)), (1, ('end',)), (1, ('begin', ('plain',), ('s', 'f', 'g'), None)), (1, ('step', None)), (1, ('results', False))])
+case = ({'adapter': False, 'compress': False, 'batch': False}, [{'seconds': 2}, {'minutes': 5}], [(1, ('begin', ('base',), ('s', 'f', 'g'), None)), (0, ('begin', ('base',), ('s', 'f', 'g'), None)), (0, ('step', None)), (None, ('tick', 1)), (0, ('step', None)), (None, ('tick', 1)), (0, ('step', None)), (None, ('tick', 1)), (0, ('step', None)), (None, ('tick', 1)), (1, ('keep',)), (0, ('step', None)), (0, ('results', False)), (1, ('step', None)), (0, ('step', ('base', 'c', 5.0))), (1, ('step', None)), (0, ('results', True)), (1, ('results', False))])
 bad = run(case)
 print("configuration:", case[0], "timeouts:", case[1])
 for p, s in enumerate(case[2]):
